@@ -816,10 +816,16 @@ func (c *Client) CreateSession(ctx context.Context, cfg *uasc.SessionConfig) (*S
 			return err
 		}
 
-		err := sc.VerifySessionSignature(res.ServerCertificate, nonce, res.ServerSignature.Signature)
+		// a response without a signature is verified like an empty signature
+		var signature []byte
+		if res.ServerSignature != nil {
+			signature = res.ServerSignature.Signature
+		}
+		err := sc.VerifySessionSignature(res.ServerCertificate, nonce, signature)
 		if err != nil {
+			// the server did not prove its identity: no session
 			log.Printf("error verifying session signature: %s", err)
-			return nil
+			return err
 		}
 
 		// Ensure we have a valid identity token that the server will accept before trying to activate a session
